@@ -32,7 +32,7 @@ void harness(void)
     WIT(uint, head);
     WIT(uint, tail);
     WIT(uint, bias);
-    __CPROVER_assume(size >= 2 && size <= VC_MAXOBJ && head < size && tail < size && bias <= size);
+    __CPROVER_assume(size >= 2 && head < size && tail < size && bias <= size); /* no buffer here: every 32-bit size */
     struct ring_head r, g;
     r.size = size; r.head = head; r.tail = tail;
     g = r;
@@ -43,7 +43,12 @@ void harness(void)
     __CPROVER_assume(KF_C03_move_overflow == 0 ? 1 : KF_C03_move_overflow == 1 ? !C03_REGION_H : C03_REGION_H);
     struct ring_head *ret = ring_move_head(&r, bias);
     /* reference: `bias` single steps with the real ring_move_head_one */
+#ifdef WITNESS_MODE /* concretisation / native replay: bias may be 2^31, the reference is evaluated in closed form */
+    g.head = spec_ring_slot(head, bias, size);
+    for (i = bias; i < bias; i++)
+#else
     for (i = 0; i < bias; i++)
+#endif
         __CPROVER_assigns(i, g.head)
         __CPROVER_loop_invariant(i <= bias && g.size == size && g.tail == tail && g.head == SPEC_RING_SLOT(head, i, size))
         __CPROVER_decreases(bias - i)
@@ -59,7 +64,12 @@ void harness(void)
 #define C03_REGION_T ((ullong)tail + (ullong)bias > 0xFFFFFFFFull)
     __CPROVER_assume(KF_C03_move_overflow == 0 ? 1 : KF_C03_move_overflow == 1 ? !C03_REGION_T : C03_REGION_T);
     struct ring_head *ret = ring_move_tail(&r, bias);
+#ifdef WITNESS_MODE
+    g.tail = spec_ring_slot(tail, bias, size);
+    for (i = bias; i < bias; i++)
+#else
     for (i = 0; i < bias; i++)
+#endif
         __CPROVER_assigns(i, g.tail)
         __CPROVER_loop_invariant(i <= bias && g.size == size && g.head == head && g.tail == SPEC_RING_SLOT(tail, i, size))
         __CPROVER_decreases(bias - i)
